@@ -181,6 +181,47 @@ def run_gc(w, stepper=None, escape_listing=None, lying_exists=None, again=None):
                 stepper.enabled = False
 
 
+def _avro_code_damages(cls, orig):
+    import io
+
+    import fastavro
+
+    out = []
+    try:
+        rd = fastavro.reader(io.BytesIO(orig))
+        schema, recs = rd.writer_schema, list(rd)
+    except Exception:
+        return out
+    if not recs:
+        return out
+
+    def enc(rs):
+        b = io.BytesIO()
+        fastavro.writer(b, fastavro.parse_schema(schema), rs)
+        return b.getvalue()
+
+    import copy
+
+    muts = []
+    if cls == "mlist":
+        muts = [("code-content-2", lambda r: r.__setitem__("content", 2)), ("code-content-neg", lambda r: r.__setitem__("content", -1))]
+    else:
+        muts = [("code-file-format", lambda r: r["data_file"].__setitem__("file_format", "orc2" if isinstance(r["data_file"].get("file_format"), str) else 99)),
+                ("code-status-9", lambda r: r.__setitem__("status", 9))]
+    for name, f in muts:
+        for which in (0, -1):
+            rs = copy.deepcopy(recs)
+            try:
+                f(rs[which])
+                out.append((f"{name}@{'first' if which == 0 else 'last'}", enc(rs)))
+            except Exception:
+                continue
+            if len(recs) == 1:
+                break
+    return out
+
+
+
 def judge(res, w, before, R, P, raised, case, what):
     after = listing(w)
     deleted = before - after
@@ -322,8 +363,12 @@ def run_variant(task):
                         dmg.append(("key-removed-snapshots", json.dumps(doc).encode("utf-8")))
                     except Exception:
                         pass
+                if cls in ("mlist", "manifest"):
+                    # still well-formed Avro, but ONE entry carries a code this reader does not know (a newer / foreign writer, a flipped byte):
+                    # the file is only partly interpretable, so nothing that hangs off that entry may be treated as unreachable
+                    dmg += _avro_code_damages(cls, orig)
                 for dname, payload in dmg:
-                    if payload is not None and not dname.startswith("key-removed") and _parse_ok(cls, payload):
+                    if payload is not None and not dname.startswith(("key-removed", "code-")) and _parse_ok(cls, payload):
                         res.labels["c:still-parses(excluded)"] += 1
                         continue
                     wi = base.clone(f"{d}/c{len(seen)}_{dname}") if wk == "local" else base.clone()
